@@ -9,6 +9,7 @@ import (
 	"sort"
 	"strings"
 	"sync"
+	"sync/atomic"
 	"time"
 
 	"github.com/jcmturner/gokrb5/v8/client"
@@ -27,6 +28,7 @@ func cmdC11(args []string) error {
 	rounds := fs.Int("rounds", 40, "rounds")
 	out := fs.String("out", "trace.ndjson", "trace file")
 	withDestroy := fs.Bool("destroy", false, "in every round one goroutine destroys the client while the others use it")
+	stress := fs.Bool("stress", false, "free-running rounds of two seconds: twelve goroutines, a third of them logging in, the others asking for tickets that miss the cache and refresh the session by renewal")
 	fs.Parse(args)
 	r := rand.New(rand.NewSource(*seed))
 	tw, err := newTrace(*out)
@@ -34,6 +36,12 @@ func cmdC11(args []string) error {
 		return err
 	}
 	defer tw.close()
+	// the hook is installed once, before any client exists; it hands every event to the observer of the round in progress
+	client.VerifLockHook = func(ev, class, mode string, obj uintptr) {
+		if o, ok := curLockObserver.Load().(*lockObserver); ok && o != nil {
+			o.hook(ev, class, mode, obj)
+		}
+	}
 	origin := time.Now().Truncate(time.Second)
 	realm := "C11.TEST.GOKRB5"
 	spns := []string{"HTTP/a.c11.test", "HTTP/b.c11.test", "HTTP/c.c11.test", "host/d.c11.test"}
@@ -47,14 +55,26 @@ func cmdC11(args []string) error {
 		// every fifth round the KDC's clock is 270 s behind the client's (legal: inside the 300 s skew) and tickets live 300 s: a fresh
 		// TGT is then already in the last sixth of its life, so that every service-ticket request that misses the cache refreshes the
 		// session itself (ensureValidSession -> refreshSession: renewal or a new login) instead of leaving that to the background goroutine
-		behind := round%5 == 4
+		behind := round%5 == 4 || *stress
 		if behind {
 			k.policy.ClockOffset, k.policy.Lifetime, k.policy.TGTLifetime = -270*time.Second, 300*time.Second, 300*time.Second
-			if round%2 == 0 {
+			if round%2 == 0 || *stress {
 				k.policy.RenewLife = 900 * time.Second
 			}
+			if *stress {
+				k.policy.Lifetime = 270 * time.Second // service tickets are at their end when they arrive: every request misses the cache
+			}
 		}
-		for _, p := range append([]string{"krbtgt/" + realm, "alice"}, spns...) {
+		// in those rounds the requests go to many more services than the cache already knows, so that most of them miss the cache and
+		// refresh the session (by renewal or by a new login) while other goroutines log in
+		rspns := spns
+		if behind {
+			rspns = append([]string{}, spns...)
+			for i := 0; i < 28; i++ {
+				rspns = append(rspns, fmt.Sprintf("HTTP/h%d.c11.test", i))
+			}
+		}
+		for _, p := range append([]string{"krbtgt/" + realm, "alice"}, rspns...) {
 			if _, err := k.addPrincipal(realm, p, "pw-"+p, []int32{17}); err != nil {
 				return err
 			}
@@ -73,7 +93,7 @@ func cmdC11(args []string) error {
 		if round%3 == 0 {
 			lib["renew_lifetime"] = "10"
 		}
-		if behind && round%2 == 0 {
+		if behind && (round%2 == 0 || *stress) {
 			lib["renew_lifetime"] = "900"
 		}
 		conf := simConf(realm, map[string][]string{realm: addrs}, lib, map[string]string{".c11.test": realm})
@@ -89,8 +109,13 @@ func cmdC11(args []string) error {
 			return err
 		}
 		cfgBefore, _ := cfg.JSON()
+		lo := newLockObserver()
+		curLockObserver.Store(lo)
 		cl := client.NewWithPassword("alice", realm, "pw-alice", cfg, client.DisablePAFXFAST(true))
 		g := 2 + r.Intn(15)
+		if *stress {
+			g = 12
+		}
 		long := round%4 == 3       // a longer round: it lasts until the renewal point of the TGT (5/6 of its 3 s) has passed
 		destroyMid := *withDestroy // one goroutine destroys the client while the others use it
 		type res struct {
@@ -125,7 +150,47 @@ func cmdC11(args []string) error {
 				defer wg.Done()
 				<-start
 				n := 3 + rr.Intn(4)
+				if behind {
+					n = 12 + rr.Intn(9)
+				}
 				t0 := time.Now()
+				if *stress {
+					// no pauses, no bookkeeping beyond a sample: what is looked for is a schedule
+					for j := 0; time.Since(t0) < 2*time.Second; j++ {
+						if i%3 == 0 {
+							var e error
+							x := res{Op: "login"}
+							x.Panic = catch(func() { e = cl.Login() })
+							x.Ok = e == nil && x.Panic == ""
+							if e != nil {
+								x.Err = trunc(e.Error(), 160)
+							}
+							if j%10 == 0 || !x.Ok {
+								add(x)
+							}
+							continue
+						}
+						spn := rspns[rr.Intn(len(rspns))]
+						var tkt messages.Ticket
+						var key types.EncryptionKey
+						var e error
+						x := res{Op: "get", SPN: spn}
+						x.Panic = catch(func() { tkt, key, e = cl.GetServiceTicket(spn) })
+						x.Ok = e == nil && x.Panic == ""
+						if e != nil {
+							x.Err = trunc(e.Error(), 160)
+						}
+						if x.Ok && len(tkt.EncPart.Cipher) >= 8 {
+							x.Tkt, x.Key = hx(tkt.EncPart.Cipher[len(tkt.EncPart.Cipher)-8:]), hx(key.KeyValue)
+							if j%10 == 0 {
+								addHeld(x, key)
+							}
+						} else {
+							add(x)
+						}
+					}
+					return
+				}
 				for j := 0; j < n || (long && time.Since(t0) < 3300*time.Millisecond && j < 40); j++ {
 					if destroyMid && i == 0 && j == 1 {
 						x := res{Op: "destroy", Ok: true}
@@ -135,7 +200,7 @@ func cmdC11(args []string) error {
 					}
 					switch c := rr.Intn(10); {
 					case c < 5:
-						spn := spns[rr.Intn(len(spns))]
+						spn := rspns[rr.Intn(len(rspns))]
 						var tkt messages.Ticket
 						var key types.EncryptionKey
 						var e error
@@ -199,7 +264,7 @@ func cmdC11(args []string) error {
 		deadlock := false
 		select {
 		case <-done:
-		case <-time.After(60 * time.Second):
+		case <-time.After(map[bool]time.Duration{false: 60 * time.Second, true: 20 * time.Second}[*stress]):
 			deadlock = true
 		}
 		destroyed := make(chan struct{})
@@ -216,6 +281,23 @@ func cmdC11(args []string) error {
 		k.close()
 		sort.Strings(addrs)
 		mu.Lock()
+		if *stress {
+			// the issue log of such a round is long: keep the records of the tickets that were sampled
+			want := map[string]bool{}
+			for _, x := range results {
+				want[x.Tkt] = true
+			}
+			var keep []issueRec
+			for _, ir := range issued {
+				if want[ir.TktHash] {
+					keep = append(keep, ir)
+				}
+			}
+			issued = keep
+			if issued == nil {
+				issued = []issueRec{}
+			}
+		}
 		for i, key := range held {
 			results[i].KeyEnd = hx(key.KeyValue)
 		}
@@ -224,7 +306,8 @@ func cmdC11(args []string) error {
 				results[i].Servers = []string{}
 			}
 		}
-		tw.emit(map[string]interface{}{"round": round, "g": g, "nkdc": nk, "long": long, "behind": behind, "destroyMid": destroyMid, "configured": addrs, "kpConfigured": kps, "results": results, "issued": issued,
+		nest, kdcHolding, lockEvents := lo.report()
+		tw.emit(map[string]interface{}{"nestings": nest, "kdcHolding": kdcHolding, "lockEvents": lockEvents, "round": round, "g": g, "nkdc": nk, "long": long, "behind": behind, "destroyMid": destroyMid, "configured": addrs, "kpConfigured": kps, "results": results, "issued": issued,
 			"deadlock": deadlock, "configUnchanged": cfgBefore == cfgAfter})
 		mu.Unlock()
 		if deadlock {
@@ -234,4 +317,109 @@ func cmdC11(args []string) error {
 		}
 	}
 	return nil
+}
+
+
+// ---- the locks of the client as the hooks in client/session.go, cache.go and network.go report them ------------------------
+// The observer keeps, per goroutine, the locks it has requested and not yet released, and records every NESTING it sees: a lock
+// requested while another is held (classes, modes, whether it is the very same lock), and every exchange with a KDC begun while
+// a lock is held.  Which nestings the protocol allows is the specification's business (ClientConcurrency!Nesting, TraceC11).
+var curLockObserver atomic.Value
+
+type heldLock struct {
+	class, mode string
+	obj         uintptr
+}
+type lockNesting struct {
+	Outer   string `json:"outer"`
+	OMode   string `json:"omode"`
+	Inner   string `json:"inner"`
+	IMode   string `json:"imode"`
+	SameObj bool   `json:"sameObj"`
+	Site    string `json:"site"`
+	N       int    `json:"n"`
+}
+type lockObserver struct {
+	mu       sync.Mutex
+	held     map[int64][]heldLock
+	nestings map[string]*lockNesting
+	kdc      map[string]*lockNesting // an exchange with a KDC begun while holding Outer
+	events   int
+}
+
+func newLockObserver() *lockObserver {
+	return &lockObserver{held: map[int64][]heldLock{}, nestings: map[string]*lockNesting{}, kdc: map[string]*lockNesting{}}
+}
+
+func callerSite() string {
+	pc, _, _, ok := runtime.Caller(4)
+	if !ok {
+		return "?"
+	}
+	name := runtime.FuncForPC(pc).Name()
+	return name[strings.LastIndex(name, "/")+1:]
+}
+
+func (o *lockObserver) hook(ev, class, mode string, obj uintptr) {
+	g := goid()
+	o.mu.Lock()
+	defer o.mu.Unlock()
+	o.events++
+	switch ev {
+	case "want":
+		for _, h := range o.held[g] {
+			key := h.class + h.mode + ">" + class + mode + fmt.Sprint(h.obj == obj)
+			n := o.nestings[key]
+			if n == nil {
+				n = &lockNesting{Outer: h.class, OMode: h.mode, Inner: class, IMode: mode, SameObj: h.obj == obj, Site: callerSite()}
+				o.nestings[key] = n
+			}
+			n.N++
+		}
+		o.held[g] = append(o.held[g], heldLock{class, mode, obj})
+	case "rel":
+		hs := o.held[g]
+		for i := len(hs) - 1; i >= 0; i-- {
+			if hs[i].obj == obj && hs[i].class == class && hs[i].mode == mode {
+				o.held[g] = append(hs[:i], hs[i+1:]...)
+				break
+			}
+		}
+		if len(o.held[g]) == 0 {
+			delete(o.held, g)
+		}
+	case "kdc":
+		for _, h := range o.held[g] {
+			key := h.class + h.mode
+			n := o.kdc[key]
+			if n == nil {
+				n = &lockNesting{Outer: h.class, OMode: h.mode, Inner: "kdc", Site: callerSite()}
+				o.kdc[key] = n
+			}
+			n.N++
+		}
+	}
+}
+
+func (o *lockObserver) report() (nest, kdc []lockNesting, events int) {
+	o.mu.Lock()
+	defer o.mu.Unlock()
+	nest, kdc = []lockNesting{}, []lockNesting{}
+	var ks []string
+	for k := range o.nestings {
+		ks = append(ks, k)
+	}
+	sort.Strings(ks)
+	for _, k := range ks {
+		nest = append(nest, *o.nestings[k])
+	}
+	ks = nil
+	for k := range o.kdc {
+		ks = append(ks, k)
+	}
+	sort.Strings(ks)
+	for _, k := range ks {
+		kdc = append(kdc, *o.kdc[k])
+	}
+	return nest, kdc, o.events
 }
